@@ -21,7 +21,7 @@ KETOHEX = ["Fru", "Tag", "Sor", "Psi"]
 OL_ROWS = ["Glc", "Man", "Gal", "Gul", "Alt", "All", "Tal", "Ido", "Qui", "Rha", "Fuc", "Ara", "Lyx", "Xyl", "Rib", "Kdo"]
 
 
-def make_cases(r, tier):
+def make_cases(r, tier, extra_ol=()):
     cs = []
     def add(kind, name, parent, *args, **kw):
         cs.append({"kind": kind, "name": name, "parent": parent, "args": [str(a) for a in args], **kw})
@@ -55,6 +55,15 @@ def make_cases(r, tier):
         # the amine: C2 of an aldose
         if 2 in free:
             add("amino", s + "N", s, 2)
+    # every code of the library that has an open-form row: -ol, -onic, -aric against the reduced / oxidised ring form
+    for code, parent in extra_ol:
+        if parent in SUG or parent.rstrip("f") in SUG or code == "Api":     # apiose: branched, see the C08 finding
+            continue
+        add("ol", code + "-ol", parent)
+        if code not in ("Kdo", "Mur", "Qui", "Rha", "Fuc", "Api"):
+            add("onic", code + "-onic", parent)
+        if code in ("Ery", "Thre"):
+            add("aric", code + "-aric", parent)
     for s in KETOHEX:
         add("amino", s + "N", s, 1)
         add("amino", s + "fN", s + "f", 1)
@@ -75,7 +84,18 @@ def run(tier):
     ob, dis, names_thm, broken = C.proof_gate(report, res, PROP, DEPS)
     orc = chem.Oracle()
     r = C.rng(PROP)
-    cases = make_cases(r, tier)
+    rows = [x.split("\x1e") for x in orc.drv.call("librows").split("\x1f")]
+    names_p = {k: n for t, k, n, *_ in rows if t == "p" and "_" not in k}
+    names_f = {k: n for t, k, n, *_ in rows if t == "f" and "_" not in k}
+    extra_ol = []
+    for t, k, n, *_ in rows:
+        if t == "o" and k.endswith("-OL"):
+            b = k[:-3]
+            if b in names_p:
+                extra_ol.append((names_p[b], names_p[b]))
+            elif b in names_f:
+                extra_ol.append((names_f[b], names_f[b]))
+    cases = make_cases(r, tier, extra_ol)
     names = sorted(set([c["name"] for c in cases] + [c["parent"] for c in cases] +
                        [f"{c['parent']}{c['args'][0]}d" for c in cases if c["kind"] in ("deoxy+amino",)] +
                        [f"{c['parent']}{c['args'][0]}e" for c in cases if c["kind"] == "epimer+deoxy"]))
